@@ -107,10 +107,11 @@ const (
 	// not addressed by it (enumerated under wrapper tuples that contain a loop)
 	failStrayBreak
 	failStrayContinue
+	failThrowEmpty // throw "": an empty message is a throw like any other
 	numFail
 )
 
-var failNames = [...]string{"none", "throw", "undefined-name", "return", "failing-host-call", "close-closed-channel", "stray-break-in-callee", "stray-continue-in-callee"}
+var failNames = [...]string{"none", "throw", "undefined-name", "return", "failing-host-call", "close-closed-channel", "stray-break-in-callee", "stray-continue-in-callee", "throw-empty-string"}
 
 const failTag = 1
 
@@ -124,6 +125,8 @@ func (g *gen) failStmt(kind int) []ir.Stmt {
 		return []ir.Stmt{ir.Return{Vals: []ir.Expr{ir.I(5)}, Tag: failTag}}
 	case failHostCall:
 		return []ir.Stmt{ir.ExprStmt{X: ir.Boom{ID: g.id()}, Tag: failTag}}
+	case failThrowEmpty:
+		return []ir.Stmt{ir.Throw{X: ir.S(""), Tag: failTag}}
 	case failStrayBreak:
 		return []ir.Stmt{ir.ExprStmt{X: ir.Call{Fn: &ir.FuncLit{Body: []ir.Stmt{ir.Break{}}}}, Tag: failTag}}
 	case failStrayContinue:
@@ -175,9 +178,16 @@ func (g *gen) deferGroup(kind int) []ir.Stmt {
 	case deferProbe:
 		return []ir.Stmt{ir.Defer{Call: ir.Probe{ID: g.id()}}}
 	case deferClosure:
-		x := fmt.Sprintf("x%d", g.id())
-		lit := &ir.FuncLit{Params: []string{"a"}, Body: []ir.Stmt{ir.V(ir.Var{Name: "a"}, ir.Var{Name: x})}}
-		return []ir.Stmt{ir.Set(x, ir.I(1)), ir.Defer{Call: ir.Call{Fn: lit, Args: []ir.Expr{ir.Var{Name: x}}}}, ir.Set(x, ir.I(2))}
+		// arguments as evaluated at the defer statement (a variable and a list
+		// ELEMENT, both changed afterwards), the captured variable as at the exit;
+		// once through a script closure, once with a host function deferred directly
+		k := g.id()
+		x, l := fmt.Sprintf("x%d", k), fmt.Sprintf("l%d", k)
+		lit := &ir.FuncLit{Params: []string{"a", "b"}, Body: []ir.Stmt{ir.V(ir.Var{Name: "a"}, ir.Var{Name: "b"}, ir.Var{Name: x})}}
+		return []ir.Stmt{ir.Set(x, ir.I(1)), ir.Set(l, ir.List{Elems: []ir.Expr{ir.I(1)}}),
+			ir.Defer{Call: ir.Call{Fn: lit, Args: []ir.Expr{ir.Var{Name: x}, ir.Elem{Name: l, I: 0}}}},
+			ir.Defer{Call: ir.Show{Args: []ir.Expr{ir.Var{Name: x}, ir.Elem{Name: l, I: 0}}}},
+			ir.Set(x, ir.I(2)), ir.SetElem{Name: l, I: 0, Val: ir.I(2)}}
 	case deferThrows:
 		lit := &ir.FuncLit{Body: []ir.Stmt{ir.Throw{X: ir.S(fmt.Sprintf("D%d", g.id()))}}}
 		return []ir.Stmt{ir.Defer{Call: ir.Call{Fn: lit}}}
